@@ -88,7 +88,31 @@ HookMatrix ==
   {[kind |-> "github", path |-> ev[1], method |-> "POST", session |-> c, param |-> r,
     class |-> HookOutcome(c, r, ev).class, job |-> HookOutcome(c, r, ev).job] : c \in Creds, r \in Repos, ev \in GhEvents}
 
+(* the login flow: how a session comes to be "user" or "admin".  /api/auth with a host token; the host  *)
+(* answers with a profile.  A refused login must leave the session unauthenticated ("none"): the       *)
+(* requests that follow on the same session are decided by ApiOutcome for the session the login left. *)
+Profiles == {"notoken", "nouser", "member", "member_admin", "outsider", "outsider_admin", "noemail", "noemail_admin",
+             "lookalike"}     \* lookalike: an address that merely CONTAINS the organisation (x@scality.com.evil.example)
+InOrg(pf) == pf \in {"member", "member_admin"}
+Listed(pf) == pf \in {"member_admin", "outsider_admin", "noemail_admin"}
+LoginSession(pf, org) ==
+  IF pf \in {"notoken", "nouser"} THEN "none"
+  ELSE IF org = "set" /\ ~ InOrg(pf) THEN "none"
+  ELSE IF Listed(pf) THEN "admin" ELSE "user"
+FollowUps(session) ==
+  [e \in Endpoints |-> ApiOutcome(e.path, e.method, session, CHOOSE prm \in Params(e.path) : prm[2])]
+LoginMatrix ==
+  {[kind |-> "login", path |-> pf, method |-> "GET", param |-> org, logout |-> lo,
+    session |-> IF lo THEN "none" ELSE LoginSession(pf, org),
+    class |-> IF LoginSession(pf, org) = "none" THEN "refuse" ELSE "login_ok", job |-> "",
+    follow |-> LET ses == IF lo THEN "none" ELSE LoginSession(pf, org)
+               IN SetToSeq({[path |-> e.path, method |-> e.method, class |-> FollowUps(ses)[e].class,
+                             job |-> FollowUps(ses)[e].job] : e \in Endpoints})] :
+      pf \in Profiles, org \in {"set", "unset"}, lo \in {TRUE, FALSE}}
+LoginRows == {r \in LoginMatrix : r.logout => r.class = "login_ok"}     \* logout needs a session
+
 ASSUME ndJsonSerialize(IOEnv.OUT_FILE, SetToSeq(ApiMatrix \cup FormMatrix \cup HookMatrix))
+ASSUME ndJsonSerialize(IOEnv.OUT_FILE2, SetToSeq(LoginRows))
 
 VARIABLE v
 Init == v = 0
